@@ -22,6 +22,9 @@ import (
 // name is shadowed; a front end that holds PkgRef objects can).
 
 const fxCFmt = "fx/c/fmt"
+const fxDFmt = "fx/d/fmt"
+const fxCUtil = "fx/c/util"
+const fxCUtilSrc = "package util\n\nfunc Fn(a ...any) {}\nvar V int\n"
 const fxCFmtSrc = "package fmt\n\nfunc Println(a ...any) {}\nvar V int\n"
 
 type c09Pkg struct {
@@ -29,7 +32,7 @@ type c09Pkg struct {
 	arg      string // "str" | "aC" | "bC"
 }
 
-var c09Pkgs = []c09Pkg{{"fmt", "Println", "str"}, {"strings", "ToUpper", "str"}, {gen.FxA, "Fn", "C"}, {gen.FxB, "Fn", "C"}, {fxCFmt, "Println", "str"}, {"os", "Getenv", "str"}, {"errors", "New", "str"}}
+var c09Pkgs = []c09Pkg{{"fmt", "Println", "str"}, {"strings", "ToUpper", "str"}, {gen.FxA, "Fn", "C"}, {gen.FxB, "Fn", "C"}, {fxCFmt, "Println", "str"}, {fxDFmt, "Println", "str"}, {fxCUtil, "Fn", "str"}, {"os", "Getenv", "str"}, {"errors", "New", "str"}}
 
 // (names with the reserved helper prefix _autoGo_ are exercised by the dedicated scenarios c09AutoNameScenarios)
 var c09Names = []string{"fmt", "util", "strings", "os", "errors", "fmt1", "util1", "util2", "strings1", "fmt2", "util3", "x", "main1"}
@@ -285,6 +288,8 @@ func c09Universe() *ref.Universe {
 	u := sharedUniverse()
 	if !c09Added[u] {
 		u.AddSource(fxCFmt, fxCFmtSrc)
+		u.AddSource(fxDFmt, fxCFmtSrc)
+		u.AddSource(fxCUtil, fxCUtilSrc)
 		c09Added[u] = true
 	}
 	return u
@@ -337,13 +342,12 @@ func (c *c09Hist) autoNameScenario(k int) {
 	cb.End()
 }
 
-func c09Run(tier string, seed uint64, i int) []h.Result {
+// c09Build replays import history i (or reserved-prefix scenario i-c09N) and returns the outcome before writing.
+func c09Build(u *ref.Universe, tier string, seed uint64, i int) (*drive.Outcome, *gogen.Package, *c09Hist) {
 	r := h.NewRand(seed, 9, uint64(i))
-	u := c09Universe()
 	o := &drive.Outcome{OpKinds: map[string]int{}}
 	pkg := drive.NewPackage(u, "main", drive.Opt{Bare: i%3 == 0}, o)
 	c := &c09Hist{r: r, pkg: pkg, refs: map[string]gogen.PkgRef{}, uses: map[string][]string{}, force: map[string][]string{}, pkgLvl: map[string]bool{}}
-	res := h.Result{Verdict: h.Held}
 	scenario := i - c09N(tier)
 	func() {
 		defer func() {
@@ -361,6 +365,14 @@ func c09Run(tier string, seed uint64, i int) []h.Result {
 		}
 		o.Status = "accepted"
 	}()
+	return o, pkg, c
+}
+
+func c09Run(tier string, seed uint64, i int) []h.Result {
+	u := c09Universe()
+	o, pkg, c := c09Build(u, tier, seed, i)
+	res := h.Result{Verdict: h.Held}
+	scenario := i - c09N(tier)
 	hist := strings.Join(c.trace, " ")
 	res.Key = fmt.Sprintf("import history seed=%d case=%d #%x", seed, i, h.StrHash(hist))
 	if scenario >= 0 {
